@@ -144,6 +144,44 @@ func loadEngine(repo string, patterns []string, speclibDir string) (*Engine, fun
 		cleanup()
 		return nil, nil, fmt.Errorf("contract errors: %s", strings.Join(errs, "; "))
 	}
+	e.guards = map[string]*guardInfo{}
+	for _, cf := range files {
+		for _, g := range cf.Guards {
+			pk := e.pkgByPath(cf.PkgPath)
+			if pk == nil {
+				continue
+			}
+			tn, ok := pk.Scope().Lookup(g.Type).(*types.TypeName)
+			if !ok {
+				return nil, nil, fmt.Errorf("%s: guardedby: unknown type %s", g.Where, g.Type)
+			}
+			stt, ok := tn.Type().Underlying().(*types.Struct)
+			if !ok {
+				return nil, nil, fmt.Errorf("%s: guardedby: %s is not a struct", g.Where, g.Type)
+			}
+			mi := -1
+			for i := 0; i < stt.NumFields(); i++ {
+				if stt.Field(i).Name() == g.Mutex {
+					mi = i
+				}
+			}
+			if mi < 0 {
+				return nil, nil, fmt.Errorf("%s: guardedby: no field %s", g.Where, g.Mutex)
+			}
+			for _, f := range g.Fields {
+				found := false
+				for i := 0; i < stt.NumFields(); i++ {
+					if stt.Field(i).Name() == f {
+						found = true
+					}
+				}
+				if !found {
+					return nil, nil, fmt.Errorf("%s: guardedby: no field %s", g.Where, f)
+				}
+				e.guards[cf.PkgPath+"."+g.Type+"."+f] = &guardInfo{mutexIdx: mi, tags: g.Tags, typ: g.Type + "." + g.Mutex}
+			}
+		}
+	}
 	e.prepareAxioms()
 	return e, cleanup, nil
 }
@@ -172,6 +210,40 @@ func (e *Engine) contractKey(fc *FuncContract) string {
 		return fc.Qual + "." + fc.Name
 	}
 	return fc.PkgPath + "." + fc.Name
+}
+
+// globalConst: a package-level variable of scalar type that is assigned a constant in the package initialiser and never
+// stored to elsewhere is read as that constant.
+func (e *Engine) globalConst(g *ssa.Global) (*ssa.Const, bool) {
+	if v, ok := e.gconsts[g]; ok {
+		return v, v != nil
+	}
+	if e.gconsts == nil {
+		e.gconsts = map[*ssa.Global]*ssa.Const{}
+	}
+	e.gconsts[g] = nil
+	if g.Pkg == nil || !e.storedOnlyInInit(g) {
+		return nil, false
+	}
+	var found *ssa.Const
+	n := 0
+	if init := g.Pkg.Func("init"); init != nil {
+		for _, b := range init.Blocks {
+			for _, in := range b.Instrs {
+				if s, ok := in.(*ssa.Store); ok && s.Addr == g {
+					n++
+					if c, ok := s.Val.(*ssa.Const); ok {
+						found = c
+					}
+				}
+			}
+		}
+	}
+	if n == 1 && found != nil {
+		e.gconsts[g] = found
+		return found, true
+	}
+	return nil, false
 }
 
 // errConst: package-level error variables initialised once are modelled as distinct non-nil constants.
